@@ -292,6 +292,37 @@ Definition is_big (e : endianness) : bool := match e with EBig => true | _ => fa
 
 Inductive dres := DOk (p : packet) | DErr | DPanic | DFuel.
 
+(* the last part of ReadPacket: the payload, read according to the format TLV.  [body] = what the reader
+   still holds, [total] = all bytes it ever held (a short read takes them all) *)
+Definition read_payload (p : packet) (hl pl : Z) (body : list Z) (total : Z) : dres * Z :=
+  match format p with
+  | Some f =>
+      if pl >? 0 then
+        match dtype f with
+        | [k] =>
+            match kind_width k with
+            | Some w =>
+                let cnt := pl / w in
+                if zlen body <? cnt * w then (DErr, total)
+                else (DOk (set_data p (mk_data w (take_vals (Z.to_nat cnt) w (is_big (endian f)) body))),
+                      hl + cnt * w)
+            | None => (DErr, hl)
+            end
+        | _ =>
+            if zlen body <? pl then (DErr, total)
+            else (DOk (set_data p (DBytes (zfirstn pl body))), hl + pl)
+        end
+      else (DOk p, hl)
+  | None => (DOk p, hl)
+  end.
+
+(* the packet right after the fixed 16-byte header *)
+Definition p0_of (hdr : list Z) (hl pl : Z) : packet :=
+  {| version := znth 0 hdr 0; headerLength := hl; payloadLength := pl;
+     sourceID := be hdr 8 4; sequenceNumber := be hdr 12 4; packetLength := hl + pl;
+     format := None; shape := None; timestamp := None; payloadLabel := [];
+     offset := 0; explicitOffset := false; pdat := DNil |}.
+
 (* result and number of bytes taken from the reader *)
 Definition read_packet_gen (lim : bool) (bs : list Z) : dres * Z :=
   if zlen bs <? 16 then (DErr, zlen bs) else              (* io.ReadFull(data, hdr) *)
@@ -300,10 +331,6 @@ Definition read_packet_gen (lim : bool) (bs : list Z) : dres * Z :=
   let pl := be hdr 2 2 in
   if hl <? 16 then (DErr, 16) else
   if negb (be hdr 4 4 =? MAGIC) then (DErr, 16) else
-  let p0 := {| version := znth 0 hdr 0; headerLength := hl; payloadLength := pl;
-               sourceID := be hdr 8 4; sequenceNumber := be hdr 12 4; packetLength := hl + pl;
-               format := None; shape := None; timestamp := None; payloadLabel := [];
-               offset := 0; explicitOffset := false; pdat := DNil |} in
   let rest := zskipn 16 bs in
   let ntlv := hl - 16 in
   if zlen rest <? ntlv then (DErr, zlen bs) else          (* io.ReadFull(data, tlvdata) *)
@@ -313,28 +340,7 @@ Definition read_packet_gen (lim : bool) (bs : list Z) : dres * Z :=
   | TPanic => (DPanic, hl)
   | TFuel => (DFuel, hl)
   | TOk items =>
-      let p := fold_left apply_tlv items p0 in
-      let body := zskipn ntlv rest in
-      match format p with
-      | Some f =>
-          if pl >? 0 then
-            match dtype f with
-            | [k] =>
-                match kind_width k with
-                | Some w =>
-                    let cnt := pl / w in
-                    if zlen body <? cnt * w then (DErr, zlen bs)
-                    else (DOk (set_data p (mk_data w (take_vals (Z.to_nat cnt) w (is_big (endian f)) body))),
-                          hl + cnt * w)
-                | None => (DErr, hl)
-                end
-            | _ =>
-                if zlen body <? pl then (DErr, zlen bs)
-                else (DOk (set_data p (DBytes (zfirstn pl body))), hl + pl)
-            end
-          else (DOk p, hl)
-      | None => (DOk p, hl)
-      end
+      read_payload (fold_left apply_tlv items (p0_of hdr hl pl)) hl pl (zskipn ntlv rest) (zlen bs)
   end.
 
 Definition read_packet : list Z -> dres * Z := read_packet_gen true.
